@@ -4,7 +4,7 @@ use crate::rng::Rng;
 pub fn docs(n: u64) -> i32 {
     let mut bad = 0;
     for seed in 0..n {
-        for fam in [families::Family::Rich, families::Family::TwoLeaf, families::Family::CyclicParents, families::Family::DeepTree] {
+        for fam in [families::Family::Rich, families::Family::TwoLeaf, families::Family::CyclicParents, families::Family::DeepTree, families::Family::RichEncrypted] {
             let mut rng = Rng::new(rng::run_seed(1, fam.name(), seed));
             let spec = families::generate(&fam, &mut rng);
             let w = docgen::write_doc(&spec);
@@ -53,6 +53,64 @@ pub fn docs(n: u64) -> i32 {
             }
         }
     }
+    bad += crypt(&repo);
     println!("selftest-docs: {} failures", bad);
     if bad > 0 { 2 } else { 0 }
+}
+
+/// Second opinion: MD5 test vectors (RFC 1321), an RC4 test vector, and /O and /U of the corpus
+/// files recomputed from their passwords. Returns the number of failures.
+pub fn crypt(repo: &str) -> i32 {
+    use crate::crypt_ref::*;
+    let mut bad = 0;
+    let hexs = |b: &[u8]| crate::docgen::hex(b).to_lowercase();
+    for (m, want) in [("", "d41d8cd98f00b204e9800998ecf8427e"), ("abc", "900150983cd24fb0d6963f7d28e17f72"), ("12345678901234567890123456789012345678901234567890123456789012345678901234567890", "57edf4a22be3c955ac49da2e2107b67a")] {
+        if hexs(&md5(m.as_bytes())) != want {
+            println!("CRYPT SELF-CHECK FAIL md5({:?})", m);
+            bad += 1;
+        }
+    }
+    if hexs(&rc4(b"Key", b"Plaintext")) != "bbf316e8d940af0ad3" {
+        println!("CRYPT SELF-CHECK FAIL rc4");
+        bad += 1;
+    }
+    for (name, r, key_len) in [("passwords_rc4_rev2", 2u8, 5usize), ("passwords_rc4_rev3", 3, 8)] {
+        let bytes = match std::fs::read(format!("{}/files/password_protected/{}.pdf", repo, name)) {
+            Ok(b) => b,
+            Err(_) => continue,
+        };
+        let toks = crate::c01::string_tokens(&bytes);
+        // the strings of the file in order: ..., /O, /U in the encryption dictionary, then the two /ID strings
+        let find_after = |key: &[u8]| -> Option<Vec<u8>> {
+            let p = bytes.windows(key.len()).position(|w| w == key)?;
+            toks.iter().find(|t| t.0 >= p).map(|t| t.2.clone())
+        };
+        let (o, u, id0) = match (find_after(b"/O "), find_after(b"/U "), find_after(b"/ID")) {
+            (Some(o), Some(u), Some(i)) => (o, u, i),
+            _ => {
+                println!("CRYPT SELF-CHECK FAIL {}: entries not found", name);
+                bad += 1;
+                continue;
+            }
+        };
+        let p_pos = bytes.windows(3).position(|w| w == b"/P ").unwrap_or(0) + 3;
+        let p_txt: String = bytes[p_pos..].iter().take_while(|c| c.is_ascii_digit() || **c == b'-').map(|&c| c as char).collect();
+        let p: i32 = p_txt.parse().unwrap_or(0);
+        let len_pos = bytes.windows(8).position(|w| w == b"/Length ").map(|x| x + 8);
+        let _ = len_pos;
+        let my_o = compute_o(r, key_len, b"ownerpassword", b"userpassword");
+        if my_o != o {
+            println!("CRYPT SELF-CHECK FAIL {}: /O differs", name);
+            bad += 1;
+        }
+        let key = compute_key(r, key_len, b"userpassword", &o, p, &id0, true);
+        let my_u = compute_u(r, &key, &id0);
+        let n = if r == 2 { 32 } else { 16 };
+        if my_u[..n] != u[..n.min(u.len())] {
+            println!("CRYPT SELF-CHECK FAIL {}: /U differs", name);
+            bad += 1;
+        }
+        println!("crypt self-check {}: /O and /U recomputed from the passwords (P = {}, {} byte key)", name, p, key_len);
+    }
+    bad
 }
